@@ -10,6 +10,7 @@ ev=$(mktemp -d /tmp/ev-patch.XXXXXX)
 base=$(mktemp /tmp/patchbase.XXXXXX)
 ./bin/absnfs-lint -prop all -out "$ev" -known /verif/known_findings.json -list 2>&1 | grep -E '^  (violated|undecided) |LOAD FAILURE|panic' | sed -E 's/  +/ /g' | sort -u > "$base"
 for pf in "$@"; do
+  pf=$(realpath "$pf")
   if ! git -C /repo apply "$pf" 2>/dev/null; then echo "== $pf: does not apply"; continue; fi
   out=$(mktemp /tmp/patchout.XXXXXX)
   ./bin/absnfs-lint -prop all -out "$ev" -known /verif/known_findings.json -list 2>&1 | grep -E '^  (violated|undecided) |LOAD FAILURE|panic' | sed -E 's/  +/ /g' | sort -u > "$out"
